@@ -128,6 +128,12 @@ class Loop:
         return self.fn.blocks[self.header]['t'].get('line', self.fn.line)
 
 
+def _dead_end(fn, b):
+    """the `otherwise` target of an exhaustive match: an empty block ending in `unreachable` is not a way out of a loop"""
+    blk = fn.blocks[b]
+    return blk['t']['k'] == 'unreachable' and not [s for s in blk['s'] if s['k'] == 'assign']
+
+
 def classify_loops(fn):
     out = []
     for h, body in sorted(fn.loops().items()):
@@ -140,7 +146,7 @@ def classify_loops(fn):
             t = fn.blocks[b]['t']
             if t['k'] == 'yield':
                 has_yield = True
-            if t['k'] == 'switch' and any(s not in body for s in fn.succ[b]):
+            if t['k'] == 'switch' and any(s not in body and not _dead_end(fn, s) for s in fn.succ[b]):
                 exits.append((b, fn.operand_tree(t['x'])))
             if t['k'] == 'call':
                 d = strip_generics(t.get('decl') or t.get('fn', ''))
